@@ -8,7 +8,11 @@ Import ListNotations.
 Open Scope Z_scope.
 
 Definition astep := (hseg * Z * list hframe * Z)%type.      (* segment, next random ISS, frames, state after *)
-Definition cstep := (hseg * list hframe * bool * Z * bool)%type. (* segment, frames, accepted, maxPayload, tsOk *)
+(* segment, frames, accepted, maxPayload, tsOk, and the sequence number the stack chose for a SYN
+   whose sequence number is this segment's minus one: the driver obtains it by sending that SYN
+   to the (stateless) listener and reading the SYN-ACK; it is the case's own cookie when the
+   segment's sequence number is the original SYN's plus one *)
+Definition cstep := (hseg * list hframe * bool * Z * bool * Z)%type.
 (* final: estate, error class (0 none, 1 refused, 2 other), maxPayload, sndWndScale, tsOk, sack, iss, irs, rcvWndScale *)
 Definition afinal := (Z * Z * Z * Z * bool * bool * Z * Z * Z)%type.
 
@@ -104,10 +108,11 @@ Fixpoint passiveCorr (k : Z) (h : hstate) (steps : list astep) : Z * bool :=
 Definition cookieH (cookie irs ts data : Z) (t n : Z) : Z :=
   if n =? 0 then u32 (cookie - irs - Z.shiftl ts tsOffset - data) else 0.
 
-Fixpoint cookieCorr (k : Z) (H : Z -> Z -> Z) (ts mtuMss : Z) (steps : list cstep) : Z :=
+Fixpoint cookieCorr (k : Z) (H : Z -> Z -> Z) (ts mtuMss data : Z) (steps : list cstep) : Z :=
   match steps with
   | [] => 0
-  | (s, fr, acc, mp, tsok) :: rest =>
+  | (s, fr, acc, mp, tsok, ck) :: rest =>
+      if negb (ck =? createCookie H ts (u32 (hs_seq s - 1)) data) then 100 * k + 3 else
       let ok :=
         match listenHandle H true ts 1048576 mtuMss s with
         | LAccept _ _ mss t => acc && (mp =? initialMaxPayload mss t false) && Bool.eqb tsok t
@@ -116,7 +121,7 @@ Fixpoint cookieCorr (k : Z) (H : Z -> Z -> Z) (ts mtuMss : Z) (steps : list cste
         end in
       if negb ok then 100 * k + 1
       else if negb (hfs_eqb fr []) then 100 * k + 2
-      else cookieCorr (k + 1) H ts mtuMss rest
+      else cookieCorr (k + 1) H ts mtuMss data rest
   end.
 
 Definition corr (c : case) : Z :=
@@ -140,7 +145,7 @@ Definition corr (c : case) : Z :=
       let data := encodeMSS (so_mss (hs_opts syn)) in
       let H := cookieH (hf_seq synack) (hs_seq syn) ts data in
       match listenHandle H true ts 1048576 mtuMss syn with
-      | LCookieSynAck f => if negb (hf_eqb f synack) then 1 else cookieCorr 1 H ts mtuMss steps
+      | LCookieSynAck f => if negb (hf_eqb f synack) then 1 else cookieCorr 1 H ts mtuMss data steps
       | _ => 2
       end
   | CStray s frames => if hfs_eqb (unknownDestination s) frames then 0 else 1
@@ -200,21 +205,25 @@ Fixpoint passiveSpec (iss : Z) (steps : list astep) : Z :=
 
 (* cookie mode: 2 = known pattern C03-cookie-lowbits (an acknowledgement up to 3 above or below the
    issued cookie is accepted when it decodes to another valid MSS class) *)
-Fixpoint cookieSpec (cookie irs data : Z) (steps : list cstep) : Z :=
+(* The listener is stateless in cookie mode: an ACK with sequence number x+1 is the final ACK of a
+   handshake whose SYN carried x, and "the sequence number the stack chose" for that SYN is what it
+   answers such a SYN with ([ck], observed).  A connection may be handed out iff the ACK
+   acknowledges exactly ck (+1); the known pattern: it is off by a small k that still decodes to
+   an MSS class. *)
+Fixpoint cookieSpec (data : Z) (steps : list cstep) : Z :=
   match steps with
   | [] => 0
-  | (s, fr, acc, _, _) :: rest =>
-      let d := (hs_ack s - 1 - cookie) mod 2^32 in
-      let seqok := (hs_seq s - 1) mod 2^32 =? irs in
+  | (s, fr, acc, _, _, ck) :: rest =>
+      let d := (hs_ack s - 1 - ck) mod 2^32 in
       let ds := if d <? 2^31 then d else d - 2^32 in
       let r := if has (hs_flags s) fRst then
                  (* a reset creates no connection and is never answered *)
                  (if acc || negb (hfs_eqb fr []) then 1 else 0)
                else if acc then
-                 if seqok && (d =? 0) then 0
-                 else if seqok && (-3 <=? ds) && (ds <=? 3) && (0 <=? data + ds) && (data + ds <? 4) then 2 else 1
+                 if d =? 0 then 0
+                 else if (-3 <=? ds) && (ds <=? 3) && (0 <=? data + ds) && (data + ds <? 4) then 2 else 1
                else 0 in
-      if negb (r =? 0) then r else cookieSpec cookie irs data rest
+      if negb (r =? 0) then r else cookieSpec data rest
   end.
 
 Definition spec (c : case) : Z :=
@@ -226,7 +235,7 @@ Definition spec (c : case) : Z :=
       else passiveSpec (hf_seq synack) steps
   | CCookie syn _ _ synack steps =>
       if negb ((hf_flags synack =? 18) && (hf_ack synack =? (hs_seq syn + 1) mod 2^32)) then 1
-      else cookieSpec (hf_seq synack) (hs_seq syn) (encodeMSS (so_mss (hs_opts syn))) steps
+      else cookieSpec (encodeMSS (so_mss (hs_opts syn))) steps
   | CStray s frames =>
       if has (hs_flags s) fRst then (if hfs_eqb frames [] then 0 else 1)
       else if resetOK s frames then 0 else 1
@@ -241,7 +250,7 @@ Definition tag (c : case) : Z :=
   match c with
   | CActive _ _ _ _ _ _ steps _ => if Nat.ltb 1 (length steps) then 2 else 1
   | CPassive _ _ _ _ _ acc steps _ => if acc then 3 else 4
-  | CCookie _ _ _ _ steps => if existsb (fun x => match x with (_, _, a, _, _) => a end) steps then 5 else 6
+  | CCookie _ _ _ _ steps => if existsb (fun x => match x with (_, _, a, _, _, _) => a end) steps then 5 else 6
   | CStray s _ => if has (hs_flags s) fRst then 0 else 7
   | CListen _ _ _ => 8
   | CEstRst inw _ _ _ => if inw then 9 else 10
